@@ -27,7 +27,7 @@ Stated bounds (u = 2^-53, eta = 2^-1074): a RUNNING error analysis (class RE) fo
 Unconstrained by the property (accepted either way by the oracle, still compared bit for bit with the model):
   a masked neighbour in range whose weight is 0 (code: does not mask); count in {neighbours in range, neighbours with w != 0}
   (code: neighbours in range); stddev where >= 2 neighbours are in range but at most one has non-zero weight (0/0 or x/0).
-Attribution keys: C04.neighbour_info.*, C04.weights, C04.mean, C04.mean.missing_slot_leak, C04.mean.placeholder_weight, C04.fill, C04.mask, C04.count[.k1|.mask],
+Attribution keys: C04.layout_independence, C04.input_mutated, C04.neighbour_info.radius.epsilon, C04.neighbour_info.*, C04.weights, C04.mean, C04.mean.missing_slot_leak, C04.mean.placeholder_weight, C04.fill, C04.mask, C04.count[.k1|.mask],
   C04.stddev[.undefined|.mask], C04.uncert.return[.empty], C04.shape, C04.error.<Exception>.
 Translator (tools/gen_specs/GenC04.json, regenerated on every run, characterised in Proofs/C04_gen.v): the accumulation loop body and the
   normalisation block of _resample_with_weights, the loop body and the final-estimator block of _calculate_uncertainty (single- and
@@ -249,6 +249,12 @@ def gen_case(r, stream):
     span = r.choice([0.02, 0.05, 0.05, 0.2])
     srows, scols = r.randint(1, 5), r.randint(1, 6)
     trows, tcols = r.randint(1, 4), r.randint(1, 4)
+    # non-default epsilon (approximate kd-tree search, passed to pykdtree as eps): few enough sources (one kd-tree leaf,
+    # pykdtree leafsize 16) that the search is exhaustive whatever epsilon is, so the neighbour set is decided by the
+    # radius alone and the oracle's exhaustive k-nearest check applies unchanged
+    eps_mode = stream in ("regular", "boundary", "nonfinite") and r.random() < 0.25
+    if eps_mode:
+        srows, scols = r.randint(1, 3), r.randint(1, 4)
     reduce_ok = abs(lat0) <= 40 and abs(lon0) < 170
     want_reduce = reduce_ok and r.random() < 0.3
     if want_reduce:     # one-pixel-thick areas make data_reduce raise (C09/C11 finding), not this property's business
@@ -292,10 +298,10 @@ def gen_case(r, stream):
         if src["kind"] == "swath":
             for _ in range(r.randint(1, 2)):
                 i, j = r.randrange(srows), r.randrange(scols)
-                if r.random() < 0.5:
-                    src["lons"][i][j] = r.choice([1e30, 180.5, -200.0])
+                if r.random() < 0.5:     # NaN in only one of the two paired coordinate arrays included
+                    src["lons"][i][j] = r.choice([1e30, 180.5, -200.0, float("nan")])
                 else:
-                    src["lats"][i][j] = r.choice([1e30, 90.5, -91.0])
+                    src["lats"][i][j] = r.choice([1e30, 90.5, -91.0, float("nan")])
             spts = None
         if tgt["kind"] == "swath" and r.random() < 0.5:
             i, j = r.randrange(trows), r.randrange(tcols)
@@ -406,6 +412,16 @@ def gen_case(r, stream):
                 p = radius * r.choice([0.5, 0.25, 0.125, 0.0625])
             wf.append([name, hx(p)])
         c["wf"] = wf
+    # non-default optional argument epsilon
+    c["epsilon"] = hx(0.0)
+    if eps_mode:
+        c["epsilon"] = hx(r.choice([radius * 0.02, radius * 0.2, radius * 0.2, 250.0, 0.5, radius]))
+    # memory layout of the arrays handed to the library (same logical values): C, Fortran, transposed view of a
+    # transposed store, strided view into a larger array, doubly reversed (negative strides)
+    c["layout"] = r.choice(["C", "C", "C", "F", "F", "T", "T", "strided", "neg"])
+    c["coord_layout"] = r.choice(["C", "C", "C", "F", "T", "strided", "neg"])
+    # integral radius passed as a Python int (radius_of_influence accepts int and float)
+    c["radius_int"] = bool(radius == int(radius) and r.random() < 0.5)
     # swath coordinates as hex
     for g in (src, tgt):
         if g["kind"] == "swath":
@@ -519,7 +535,10 @@ class Judge:
                 if abs(d - D[ix]) > tol:
                     self.bad("C04.neighbour_info.distance", "target %d slot %d: distance %r but exhaustive distance to source %d is %r" % (t, s, d, ix, D[ix]))
                 if not d <= radius + tol:       # pykdtree compares squared distances: d == radius can survive the sqrt
-                    self.bad("C04.neighbour_info.radius", "target %d slot %d: neighbour at %r is not inside the radius %r" % (t, s, d, radius))
+                    eps = unhex(c.get("epsilon", hx(0.0)))
+                    self.bad("C04.neighbour_info.radius.epsilon" if eps > 0 else "C04.neighbour_info.radius",
+                             "target %d slot %d: neighbour at %r is not inside the radius %r%s" % (
+                                 t, s, d, radius, " (epsilon=%r must not widen the cut-off)" % eps if eps > 0 else ""))
                 if d < last - tol:
                     self.bad("C04.neighbour_info.order", "target %d: slots not sorted by distance" % t)
                 last = d
@@ -538,6 +557,11 @@ class Judge:
             self.bad("C04.error." + o["error"], "the implementation raised %s: %s" % (o["error"], o.get("msg", "")))
             return
         self.check_neighbours()
+        if o.get("same_as_c") is False:
+            self.bad("C04.layout_independence", "data layout %s / coordinate layout %s: the result differs from the one for the same values in "
+                     "C-contiguous arrays (%s)" % (c.get("layout"), c.get("coord_layout"), o.get("layout_diff", "")))
+        if o.get("input_mutated"):
+            self.bad("C04.input_mutated", "the call modified the caller's %s" % o["input_mutated"])
         k, nchan = c["k"], max(c["C"], 1)
         vals, msk = flat_channels(c)
         vin, vout = o["valid_in"], o["valid_out"]
@@ -795,7 +819,10 @@ def run(ctx):
                 "NaN under the mask / no valid input or output): source swath 1x1..5x6 or small laea/eqc/stere area, target swath or area "
                 "at 10 centres incl. poles and antimeridian, k in 1..8 (also k > number of sources), gauss sigmas per channel or custom "
                 "weight functions (dyadic bins with a zero range, 1/(1+(d/p)^2), linear-to-zero, scalar constant incl. 0, zero-near, all-zero, and p/d, p/d^2, 1/(d+tiny) singular or huge at 0 on geometries without coincident points), "
-                "float64/float32/int32 data, 1..3 channels, masked data, fill number/None, with_uncert, reduce_data, segments. "
+                "float64/float32/int32 data, 1..3 channels, masked data, fill number/None, with_uncert, reduce_data, segments, "
+                "non-default epsilon > 0 (on <= 12 sources, where the kd-tree search stays exhaustive), data and coordinate arrays in C / Fortran / "
+                "transposed-view / strided / negative-stride memory layout (each non-C call is also compared with the C-contiguous call), "
+                "NaN in one of two paired coordinates, radius as int. "
                 "A case is non-trivial when at least one output cell is a weighted mean of >= 2 present neighbours AND at least one slot is "
                 "missing or at least one cell is filled; distinct = distinct (geometry, data, parameters) inputs")
     cases = gen_cases(ctx)
@@ -807,6 +834,12 @@ def run(ctx):
         ctx.count(kind)
         ctx.count("stream:" + c["stream"])
         ctx.count("k=%d" % c["k"])
+        ctx.count("data_layout:" + c["layout"])
+        ctx.count("coord_layout:" + c["coord_layout"])
+        if unhex(c["epsilon"]) > 0:
+            ctx.count("epsilon>0")
+        if c["radius_int"]:
+            ctx.count("radius_as_int")
         if c["mode"] == "custom" and any(w[0] in ("invd", "invd2", "invdt") for w in c["wf"]):
             ctx.count("wf_singular_at_0")
         if c["mode"] == "custom" and any(w[0] in ("sing1", "sing1sq") for w in c["wf"]):
